@@ -7,7 +7,7 @@ import FlexModel.Fac.Mapping
 import Generated.Asn1Ranges
 
 namespace FlexModel.Fac.MappingLemmas
-open FlexModel.Fac.Mapping Generated.Fac
+open FlexModel.Fac.Mapping Generated.Fac Generated.Fac11
 
 theorem trunc_nonneg {x : Rat} (h : 0 ≤ x) : trunc x = x.floor := by simp [trunc, h]
 theorem trunc_neg {x : Rat} (h : x < 0) : trunc x = x.ceil := by
@@ -256,53 +256,249 @@ theorem ellipse_major_ge_minor (epx epy : Err)
   · simp only [h, if_false]; exact goodAxis_mono (hmono.2 (by grind))
 
 /-! ### altitude confidence -/
-theorem altConfFrom_mem (names : List String) (ho : "outOfRange" ∈ names) :
-    ∀ (L : List (Rat × String)), (∀ p ∈ L, p.2 ∈ names) → ∀ e, altConfFrom L e ∈ names
+theorem altConfFromG_mem (op : Nat) (names : List String) (ho : "outOfRange" ∈ names) :
+    ∀ (L : List (Rat × String)), (∀ p ∈ L, p.2 ∈ names) → ∀ e, altConfFromG op L e ∈ names
   | [], _, _ => ho
   | (k, n) :: rest, h, e => by
-    simp only [altConfFrom]
+    simp only [altConfFromG]
     split
     · exact h (k, n) (List.mem_cons_self ..)
-    · exact altConfFrom_mem names ho rest (fun p hp => h p (List.mem_cons_of_mem _ hp)) e
+    · exact altConfFromG_mem op names ho rest (fun p hp => h p (List.mem_cons_of_mem _ hp)) e
 
 theorem altConf_encodable (epv : Option Rat) : altConf epv ∈ Generated.Asn1.Cam.AltitudeConfidence_names := by
   cases epv with
   | none => decide
   | some e =>
-    exact altConfFrom_mem _ (by decide) ALT_CONF_LADDER (by decide) e
+    exact altConfFromG_mem _ _ (by decide) ALT_CONF_LADDER (by decide) e
 
-/-- the class written is a true upper bound of the error estimate, and the tightest one of the ladder -/
-theorem altConfFrom_sound :
+/-- the regenerated operator of `create_altitude_confidence` is `<=` (the CDD's "equal to or less than") -/
+theorem altConf_op_good : ALT_CONF_OP = 1 := by decide
+
+/-- on a ladder with increasing bounds the class chosen (CDD reading, `<=`) has the LEAST bound that is ≥ the
+estimate: `e ≤ k`, every smaller bound of the ladder is `< e`, and the name written is the one listed with `k` -/
+theorem altBound_some :
+    ∀ (L : List (Rat × String)), L.Pairwise (fun a b => a.1 < b.1) → ∀ (e k : Rat),
+      altBoundFromG 1 L e = some k → e ≤ k ∧ (∀ p ∈ L, p.1 < k → p.1 < e) ∧ (k, altConfFromG 1 L e) ∈ L
+  | [], _, _, _, h => by simp [altBoundFromG] at h
+  | (k0, n0) :: rest, hs, e, k, h => by
+    have hrest := (List.pairwise_cons.mp hs)
+    simp only [altBoundFromG, altConfFromG, cmpOpR] at h ⊢
+    by_cases hle : e ≤ k0
+    · simp only [hle, decide_true, if_true, Option.some.injEq] at h ⊢
+      subst h
+      refine ⟨hle, ?_, List.mem_cons_self ..⟩
+      intro p hp hlt
+      rcases List.mem_cons.mp hp with rfl | hp'
+      · exact absurd hlt (by grind)
+      · have := hrest.1 p hp'
+        exact absurd hlt (by grind)
+    · simp only [hle, decide_false, Bool.false_eq_true, if_false] at h ⊢
+      obtain ⟨h1, h2, h3⟩ := altBound_some rest hrest.2 e k h
+      refine ⟨h1, ?_, List.mem_cons_of_mem _ h3⟩
+      intro p hp hlt
+      rcases List.mem_cons.mp hp with rfl | hp'
+      · grind
+      · exact h2 p hp' hlt
+
+/-- no class applies exactly when the estimate exceeds every bound; the result is then `outOfRange` -/
+theorem altBound_none :
     ∀ (L : List (Rat × String)) (e : Rat),
-      (∃ k, (k, altConfFrom L e) ∈ L ∧ e < k) ∨ (altConfFrom L e = "outOfRange" ∧ ∀ p ∈ L, p.1 ≤ e)
-  | [], _ => Or.inr ⟨rfl, by simp⟩
-  | (k, n) :: rest, e => by
-    simp only [altConfFrom]
-    by_cases h : e < k
-    · simp only [h, if_true]
-      exact Or.inl ⟨k, List.mem_cons_self .., h⟩
-    · simp only [h, if_false]
-      have hk : k ≤ e := by grind
-      rcases altConfFrom_sound rest e with ⟨k', hm, hlt⟩ | ⟨ho, hall⟩
-      · exact Or.inl ⟨k', List.mem_cons_of_mem _ hm, hlt⟩
-      · refine Or.inr ⟨ho, ?_⟩
-        intro p hp
-        rcases List.mem_cons.mp hp with rfl | hp'
-        · exact hk
-        · exact hall p hp'
+      altBoundFromG 1 L e = none → altConfFromG 1 L e = "outOfRange" ∧ ∀ p ∈ L, p.1 < e
+  | [], _, _ => ⟨rfl, by simp⟩
+  | (k0, n0) :: rest, e, h => by
+    simp only [altBoundFromG, altConfFromG, cmpOpR] at h ⊢
+    by_cases hle : e ≤ k0
+    · simp [hle] at h
+    · simp only [hle, decide_false, Bool.false_eq_true, if_false] at h ⊢
+      obtain ⟨h1, h2⟩ := altBound_none rest e h
+      refine ⟨h1, ?_⟩
+      intro p hp
+      rcases List.mem_cons.mp hp with rfl | hp'
+      · grind
+      · exact h2 p hp'
+
+/-- an estimate not above some bound of the ladder gets a class -/
+theorem altBound_isSome :
+    ∀ (L : List (Rat × String)) (e : Rat) (p : Rat × String), p ∈ L → e ≤ p.1 → (altBoundFromG 1 L e).isSome = true
+  | [], _, _, hp, _ => by simp at hp
+  | (k0, n0) :: rest, e, p, hp, hle => by
+    simp only [altBoundFromG, cmpOpR]
+    by_cases h0 : e ≤ k0
+    · simp [h0]
+    · simp only [h0, decide_false, Bool.false_eq_true, if_false]
+      rcases List.mem_cons.mp hp with rfl | hp'
+      · exact absurd hle h0
+      · exact altBound_isSome rest e p hp' hle
+
+theorem ladder_increasing : ALT_CONF_LADDER.Pairwise (fun a b => a.1 < b.1) := by decide +kernel
 
 /-! ### generationDeltaTime -/
 theorem gdt_range (g : Int) : 0 ≤ gdt g ∧ gdt g ≤ 65535 := by
   simp only [gdt]; omega
 
+theorem rec_op_good : REC_CMP_OP = 1 ∧ REC_CYCLE = 65536 := by decide
+
 theorem gdt_reconstruct (g r : Int) (hg : (ITS_EPOCH_MS : Int) - ELAPSED_MILLISECONDS ≤ g) (h1 : g ≤ r) (h2 : r < g + 65536) :
     reconstruct (gdt g) r = g := by
   have he : (ITS_EPOCH_MS : Int) = 1072915200000 := by decide
   have hl : (ELAPSED_MILLISECONDS : Int) = 5000 := by decide
-  simp only [reconstruct, gdt, he, hl] at *
+  simp only [reconstruct, rec_op_good.1, reconstructG, cmpOp, decide_eq_true_eq, gdt, he, hl] at *
   have hnn : 0 ≤ r - 1072915200000 + 5000 := by omega
   rw [Int.tdiv_eq_ediv_of_nonneg hnn]
   split <;> omega
+
+/-- with the strict comparison (`<` instead of `<=`) a message received in its own generation millisecond is dated
+one cycle early — for EVERY generation instant -/
+theorem reconstruct_strict_age0 (g : Int) (hg : (ITS_EPOCH_MS : Int) - ELAPSED_MILLISECONDS ≤ g) :
+    reconstructG 0 (gdt g) g = g - 65536 := by
+  have he : (ITS_EPOCH_MS : Int) = 1072915200000 := by decide
+  have hl : (ELAPSED_MILLISECONDS : Int) = 5000 := by decide
+  simp only [reconstructG, cmpOp, decide_eq_true_eq, gdt, he, hl] at *
+  have hnn : 0 ≤ g - 1072915200000 + 5000 := by omega
+  rw [Int.tdiv_eq_ediv_of_nonneg hnn]
+  split <;> omega
+
+/-! ### clock readings -/
+/-- Python `round` returns the integer within half a unit -/
+theorem pyRound_near (x : Rat) (n : Int) (h1 : (n : Rat) - 1 / 2 < x) (h2 : x < (n : Rat) + 1 / 2) : pyRound x = n := by
+  have hfl := Rat.floor_le x
+  have hlt := Rat.lt_floor_add_one x
+  have hc : ((x.floor + 1 : Int) : Rat) = (x.floor : Rat) + 1 := by simp [Rat.intCast_add]
+  rw [hc] at hlt
+  by_cases hx : (n : Rat) ≤ x
+  · have hf : x.floor = n := by
+      have a : n ≤ x.floor := Rat.le_floor_iff.mpr hx
+      have b : (x.floor : Rat) < ((n + 1 : Int) : Rat) := by
+        have : ((n + 1 : Int) : Rat) = (n : Rat) + 1 := by simp [Rat.intCast_add]
+        grind
+      have := Rat.intCast_lt_intCast.mp b
+      omega
+    simp only [pyRound, hf]
+    have : x - (n : Rat) < 1 / 2 := by grind
+    simp [this]
+  · have hx' : x < (n : Rat) := by grind
+    have hf : x.floor = n - 1 := by
+      have a : n - 1 ≤ x.floor := Rat.le_floor_iff.mpr (by
+        have : ((n - 1 : Int) : Rat) = (n : Rat) - 1 := by simp [Rat.intCast_sub]
+        grind)
+      have b : (x.floor : Rat) < (n : Rat) := by grind
+      have := Rat.intCast_lt_intCast.mp b
+      omega
+    simp only [pyRound, hf]
+    have hcast : ((n - 1 : Int) : Rat) = (n : Rat) - 1 := by simp [Rat.intCast_sub]
+    have h3 : ¬ (x - ((n - 1 : Int) : Rat) < 1 / 2) := by rw [hcast]; grind
+    have h4 : 1 / 2 < x - ((n - 1 : Int) : Rat) := by rw [hcast]; grind
+    simp only [h3, h4, if_false, if_true]
+    omega
+
+/-- `round(t*1000000)//1000` reads the millisecond `r` exactly whenever the double product is within half a
+microsecond of `1000·r` (true for every millisecond instant before the year 2112, see design note) -/
+theorem msOfMicros_exact (r : Int) (p6 : Rat) (h1 : (1000 * r : Int) - 1 / 2 < p6) (h2 : p6 < (1000 * r : Int) + 1 / 2) :
+    msOfMicros p6 = r := by
+  have := pyRound_near p6 (1000 * r) h1 h2
+  simp only [msOfMicros, this]
+  omega
+
+/-! ### vehicle role / send state -/
+theorem txStep_sent {table enum : List String} {role : Nat} (h : roleName table role ∈ enum) (s : Tx) (now : Int) :
+    (txStep table enum role s now).out.length = s.out.length + 1 ∧ (txStep table enum role s now).skipped = s.skipped ∧
+    (∀ o ∈ (txStep table enum role s now).out, o ∈ s.out ∨ o = none ∨ o = some (roleName table role)) ∧
+    (includeLf s now = true → (txStep table enum role s now).out.head? = some (some (roleName table role))) := by
+  have hc : enum.contains (roleName table role) = true := by simpa using h
+  simp only [txStep, hc, Bool.not_true, Bool.and_false, Bool.false_eq_true, if_false, List.length_cons, true_and]
+  refine ⟨?_, ?_⟩
+  · intro o ho
+    rcases List.mem_cons.mp ho with rfl | h'
+    · by_cases hl : includeLf s now = true <;> simp [hl]
+    · exact Or.inl h'
+  · intro hl; simp [hl]
+
+theorem txRun_no_stall {table enum : List String} {role : Nat} (h : roleName table role ∈ enum) :
+    ∀ (ticks : List Int) (s : Tx),
+      (ticks.foldl (txStep table enum role) s).out.length = s.out.length + ticks.length ∧
+      (ticks.foldl (txStep table enum role) s).skipped = s.skipped ∧
+      (∀ o ∈ (ticks.foldl (txStep table enum role) s).out, o ∈ s.out ∨ o = none ∨ o = some (roleName table role))
+  | [], s => by
+    refine ⟨by simp, by simp, ?_⟩
+    intro o ho
+    exact Or.inl (by simpa using ho)
+  | t :: ts, s => by
+    obtain ⟨a, b, c, _⟩ := txStep_sent h s t
+    obtain ⟨a', b', c'⟩ := txRun_no_stall h ts (txStep table enum role s t)
+    simp only [List.foldl_cons, List.length_cons]
+    refine ⟨by omega, by omega, ?_⟩
+    intro o ho
+    rcases c' o ho with h1 | h1
+    · exact c o h1
+    · exact Or.inr h1
+
+/-- a role whose name the encoder does not know: the first CAM always carries the low-frequency container, its
+encoding fails, nothing is updated — so the next attempt is again a first CAM: no CAM is ever sent -/
+theorem txRun_stall {table enum : List String} {role : Nat} (h : roleName table role ∉ enum) :
+    ∀ (ticks : List Int) (s : Tx), s.camCount = 0 →
+      (ticks.foldl (txStep table enum role) s).out = s.out ∧
+      (ticks.foldl (txStep table enum role) s).skipped = s.skipped + ticks.length
+  | [], s, _ => by simp
+  | t :: ts, s, hs => by
+    have hstep : txStep table enum role s t = { s with skipped := s.skipped + 1 } := by
+      simp [txStep, includeLf, hs, h]
+    obtain ⟨a, b⟩ := txRun_stall h ts { s with skipped := s.skipped + 1 } hs
+    simp only [List.foldl_cons, hstep, List.length_cons]
+    exact ⟨a, by simp only [] at b; omega⟩
+
+/-! ### histories -/
+theorem cacheRun_replace_last (rs : List Report) (r : Report) : cacheRun 1 (rs ++ [r]) = some r := by
+  simp [cacheRun, List.foldl_append, cacheStep]
+
+theorem evaStep_fresh (p : EvPos) (r : Report) : evaStep 1 p r = denmPos r := by
+  simp only [evaStep, denmPos, evUnavailable, if_true]
+  cases hl : r.lat <;> cases ho : r.lon <;> cases ha : r.alt <;> simp [latitude, longitude, altitude]
+
+theorem evaRun_fresh_last (rs : List Report) (r : Report) : evaRun 1 (rs ++ [r]) = denmPos r := by
+  simp [evaRun, List.foldl_append, evaStep_fresh]
+
+/-! ### cluster information container under the clustering lock -/
+theorem concRun_locked (m : Mgr) (sched : List Bool) :
+    concRun true m sched = infoAtomic m ∨ concRun true m sched = .absent := by
+  have inv : ∀ (sched : List Bool) (c : Conc),
+      (c.tx = .start ∨ c.tx = .done (infoAtomic m) ∨ c.tx = .done .absent) → (c.m = m ∨ c.m = ⟨false, none⟩) →
+      ((sched.foldl (concStep true) c).tx = .start ∨ (sched.foldl (concStep true) c).tx = .done (infoAtomic m) ∨
+        (sched.foldl (concStep true) c).tx = .done .absent) ∧
+      ((sched.foldl (concStep true) c).m = m ∨ (sched.foldl (concStep true) c).m = ⟨false, none⟩) := by
+    intro sched
+    induction sched with
+    | nil => intro c h1 h2; exact ⟨h1, h2⟩
+    | cons b bs ih =>
+      intro c h1 h2
+      simp only [List.foldl_cons]
+      apply ih
+      · cases b
+        · simp only [concStep, Bool.false_eq_true, if_false, updThread]
+          split <;> exact h1
+        · simp only [concStep, if_true, txThread]
+          rcases h1 with h | h | h <;> simp only [h, if_true]
+          · rcases h2 with h2 | h2 <;> simp [h2, infoAtomic]
+          · simp
+          · simp
+      · cases b
+        · simp only [concStep, Bool.false_eq_true, if_false, updThread, breakupDone]
+          split
+          · exact h2
+          · exact Or.inr rfl
+        · simp only [concStep, if_true, txThread]
+          rcases h1 with h | h | h <;> simp only [h, if_true] <;> exact h2
+  obtain ⟨h1, h2⟩ := inv sched ⟨m, .start, false⟩ (Or.inl rfl) (Or.inl rfl)
+  simp only [concRun]
+  generalize sched.foldl (concStep true) ⟨m, .start, false⟩ = c at h1 h2
+  rcases h1 with h | h | h
+  · simp only [txThread, h, if_true]
+    rcases h2 with h2 | h2 <;> simp [h2, infoAtomic]
+  · simp [txThread, h]
+  · simp [txThread, h]
+
+theorem infoAtomic_ne_fail (m : Mgr) : infoAtomic m ≠ .fail := by
+  simp only [infoAtomic, infoOf]
+  split <;> simp
 
 /-! ### guards regenerated from the source: any guard equivalent to the repaired one is accepted -/
 
@@ -378,5 +574,41 @@ theorem semiAxis_ok : axisOk SEMI_AXIS_CLAMPED SEMI_AXIS_OP SEMI_AXIS_GUARD SEMI
 
 theorem semiAxis_eq : semiAxis = goodAxis := by
   funext x; exact semiAxisG_congr semiAxis_ok.1 x
+
+/-! ### UPER constrained whole numbers -/
+theorem append_mod {a x n : Nat} (h : x < 2 ^ n) : (a <<< n ||| x) % 2 ^ n = x := by
+  rw [← Nat.shiftLeft_add_eq_or_of_lt h a, Nat.shiftLeft_eq, Nat.mul_comm, Nat.mul_add_mod, Nat.mod_eq_of_lt h]
+
+theorem append_shift {a x n : Nat} (h : x < 2 ^ n) : (a <<< n ||| x) >>> n = a := by
+  rw [← Nat.shiftLeft_add_eq_or_of_lt h a, Nat.shiftLeft_eq, Nat.shiftRight_eq_div_pow, Nat.mul_comm,
+    Nat.mul_add_div (Nat.two_pow_pos n), Nat.div_eq_of_lt h, Nat.add_zero]
+
+theorem lt_two_pow_nbits (size : Nat) : size < 2 ^ nbits size := by
+  simp only [nbits]
+  split
+  · subst_vars; decide
+  · exact Nat.lt_log2_self
+
+/-- a value inside its constraint fits into the field's bits -/
+theorem field_fits (f : IntField) (v : Int) (h1 : f.lo ≤ v) (h2 : v ≤ f.hi) : (v - f.lo).toNat < 2 ^ f.width := by
+  have : (v - f.lo).toNat ≤ (f.hi - f.lo).toNat := by omega
+  exact Nat.lt_of_le_of_lt this (lt_two_pow_nbits _)
+
+theorem decode_encode_aux :
+    ∀ (fs : List (IntField × Int)) (b : Bits) (L : List IntField),
+      (∀ fv ∈ fs, fv.1.lo ≤ fv.2 ∧ fv.2 ≤ fv.1.hi) →
+      decodeRev (fs.foldl (fun b fv => b.append (fv.2 - fv.1.lo).toNat fv.1.width) b).value ((fs.map (·.1)).reverse ++ L) =
+        (fs.map (·.2)).reverse ++ decodeRev b.value L
+  | [], b, L, _ => by simp
+  | (f, v) :: fs, b, L, h => by
+    have hin : f.lo ≤ v ∧ v ≤ f.hi := h (f, v) (List.mem_cons_self ..)
+    have hfit := field_fits f v hin.1 hin.2
+    have ih := decode_encode_aux fs (b.append (v - f.lo).toNat f.width) (f :: L)
+      (fun fv hm => h fv (List.mem_cons_of_mem _ hm))
+    simp only [List.foldl_cons, List.map_cons, List.reverse_cons, List.append_assoc, List.singleton_append]
+    rw [ih]
+    simp only [decodeRev, Bits.append, append_mod hfit, append_shift hfit]
+    have : f.lo + (((v - f.lo).toNat : Nat) : Int) = v := by omega
+    rw [this]
 
 end FlexModel.Fac.MappingLemmas
